@@ -642,6 +642,19 @@ fn judge_outcome(run: &Run, label: &str, v: usize, e: usize, expect: &Expect, ou
     Ok(())
 }
 
+/// Harness trouble and lost positive controls are not statements about the property: they make the run
+/// inconclusive (exit 2) instead of raising a violation.
+fn soften(run: &Run, r: CaseResult) -> CaseResult {
+    match r {
+        Err(f) if f.signature.starts_with("C19:harness-") || f.signature == "C19:wellformed-graph-not-valid" => {
+            run.count(&format!("inconclusive_{}", &f.signature[4..]));
+            run.inconclusive(format!("{}: {}", f.signature, f.what));
+            Ok(())
+        }
+        other => other,
+    }
+}
+
 fn expectation(a: &Analysis) -> Expect {
     let limit = depth_limit();
     if a.self_ref {
@@ -1336,7 +1349,7 @@ fn main() {
     }
     a_cases.push(BCase::Update { depth: 0 });
     a_cases.push(BCase::Update { depth: 3 });
-    run.drive_enum_par("builder_graphs", a_cases, threads, |c| judge_builder(&run, c));
+    run.drive_enum_par("builder_graphs", a_cases, threads, |c| soften(&run, judge_builder(&run, c)));
     phase("builder_graphs");
 
     // chain around the limit: one incremental build, sequential by nature
@@ -1357,7 +1370,7 @@ fn main() {
     // (runs beside Part B: the build is one long sequential job)
     std::thread::scope(|scope| {
     scope.spawn(|| {
-        run.drive_enum_par("builder_deep_chain", deep_all, 2, |c| judge_builder(&run, c));
+        run.drive_enum_par("builder_deep_chain", deep_all, 2, |c| soften(&run, judge_builder(&run, c)));
         CHAIN.lock().unwrap().clear();
         phase("builder_deep_chain");
     });
@@ -1367,10 +1380,10 @@ fn main() {
     for n in 1..=3 {
         small.extend(enumerate_graphs(n, n * n, run.seed));
     }
-    run.drive_enum_par("crafted_exhaustive_le3", small, threads, |g| judge_graph(&run, g));
-    let four = enumerate_graphs(4, run.scale(4, 6), run.seed);
-    run.extra("four_node_graphs", json!({"max_edges": run.scale(4, 6), "count": four.len()}));
-    run.drive_enum_par("crafted_exhaustive_4", four, threads, |g| judge_graph(&run, g));
+    run.drive_enum_par("crafted_exhaustive_le3", small, threads, |g| soften(&run, judge_graph(&run, g)));
+    let four = enumerate_graphs(4, run.scale(4, 16), run.seed);
+    run.extra("four_node_graphs", json!({"max_edges": run.scale(4, 16), "count": four.len(), "all_graphs_on_4_nodes": !run.quick()}));
+    run.drive_enum_par("crafted_exhaustive_4", four, threads, |g| soften(&run, judge_graph(&run, g)));
     run.set_exhaustive(false);
     phase("crafted_exhaustive");
 
@@ -1380,7 +1393,7 @@ fn main() {
         let cap = if size % 5 == 0 { max_nodes } else { 60 };
         gen_random(&RandSpec { family, size, seed }, cap)
     });
-    run.drive_par("crafted_random", run.scale(600, 20_000), threads, strat, |g| judge_graph(&run, g));
+    run.drive_par("crafted_random", run.scale(600, 20_000), threads, strat, |g| soften(&run, judge_graph(&run, g)));
     phase("crafted_random");
 
     // fixed large members of every family (always run, so that the 300-manifest end of the domain is never missed)
@@ -1393,7 +1406,7 @@ fn main() {
     for (family, size) in [(1u8, 298u16), (2, 148), (2, 97), (3, 298), (3, 297), (4, 298), (5, 298), (5, 297), (6, 0), (6, 1), (6, 45), (7, 0), (7, 1), (7, 4)] {
         fixed.push(gen_random(&RandSpec { family, size, seed: run.seed ^ ((family as u64) << 32) ^ size as u64 }, max_nodes));
     }
-    run.drive_enum_par("crafted_fixed_large", fixed, threads, |g| judge_graph(&run, g));
+    run.drive_enum_par("crafted_fixed_large", fixed, threads, |g| soften(&run, judge_graph(&run, g)));
     phase("crafted_fixed_large");
     });
 
